@@ -27,7 +27,7 @@ def be_models(prog):
     M['xreallocarray'] = lambda it, a, e: Ptr(Obj('arr', 'heap'), (0,))
     def arrayaddptr(it, args, e):
         a, v = args
-        lst = it.user.setdefault('arrays', {}).setdefault((id(a.obj), a.path), [])
+        lst = it.user.setdefault('arrays', {}).setdefault((a.obj.id, a.path), [])
         lst.append(v)
         return None
     M['arrayaddptr'] = arrayaddptr
@@ -51,9 +51,9 @@ def blocks(it, f):
     b = it.load(f.obj, ('start',))
     seen = set()
     while b is not None:
-        if id(b.obj) in seen:
+        if b.obj.id in seen:
             raise Unsupported('block list is cyclic')
-        seen.add(id(b.obj))
+        seen.add(b.obj.id)
         out.append(b)
         b = b.obj.f.get(('next',))
     return out
@@ -89,7 +89,7 @@ def rule_terminators(chk, prog, tier):
         blk.obj.f[('jump', 'kind')] = J['JUMP_RET']
         it.call(fi, [f, ev(prog, 'IADD'), ord('w'), cmodel.val('a'), cmodel.val('b')])
         end = it.load(f.obj, ('end',))
-        return end != blk, len(it.user.get('arrays', {}).get((id(blk.obj), ('insts',)), []))
+        return end != blk, len(it.user.get('arrays', {}).get((blk.obj.id, ('insts',)), []))
     runs = explore(prog, runner2, M, max_runs=4)
     ok = len(runs) == 1 and runs[0].outcome == 'return' and runs[0].value == (True, 0)
     r.instance(ok, 'funcinst:after-terminator', 'qbe.c:%s' % fi.get('line'), 'an instruction emitted after a terminator must go to a fresh block; got %s' % [(x.outcome, x.value) for x in runs])
@@ -155,24 +155,24 @@ def rule_phi(chk, prog, tier):
                 info.append({'b': b, 'name': bytes(read_cstr(it, o.f[('label', 'u', 'name')])).decode() + '.%s' % o.f[('label', 'id')],
                              'jk': o.f.get(('jump', 'kind')), 'j0': o.f.get(('jump', 'blk', 0)), 'j1': o.f.get(('jump', 'blk', 1)),
                              'phi': o.f.get(('phi', 'res', 'kind')), 'p0': o.f.get(('phi', 'blk', 0)), 'p1': o.f.get(('phi', 'blk', 1)),
-                             'ninst': len(it.user.get('arrays', {}).get((id(o), ('insts',)), []))})
+                             'ninst': len(it.user.get('arrays', {}).get((o.id, ('insts',)), []))})
             return info
         runs = explore(prog, runner, M, max_runs=8)
         if len(runs) != 1 or runs[0].outcome != 'return':
             raise AnalysisBroken('funcexpr(%s): %s' % (shape, [(x.outcome, x.detail) for x in runs]))
         info = runs[0].value
-        idx = {id(d['b'].obj): i for i, d in enumerate(info)}
+        idx = {d['b'].obj.id: i for i, d in enumerate(info)}
         def succs(i):
             d = info[i]
-            if d['jk'] == J['JUMP_JMP']: return [idx.get(id(d['j0'].obj))]
-            if d['jk'] == J['JUMP_JNZ']: return [idx.get(id(d['j0'].obj)), idx.get(id(d['j1'].obj))]
+            if d['jk'] == J['JUMP_JMP']: return [idx.get(d['j0'].obj.id)]
+            if d['jk'] == J['JUMP_JNZ']: return [idx.get(d['j0'].obj.id), idx.get(d['j1'].obj.id)]
             if d['jk'] in (J['JUMP_RET'], J['JUMP_HLT']): return []
             return [i + 1] if i + 1 < len(info) else []
         bad = []
         for i, d in enumerate(info):
             if d['phi'] and d['phi'] != ev(prog, 'VALUE_NONE'):
                 for src in (d['p0'], d['p1']):
-                    si = idx.get(id(src.obj)) if isinstance(src, Ptr) else None
+                    si = idx.get(src.obj.id) if isinstance(src, Ptr) else None
                     if si is None or i not in succs(si):
                         bad.append('phi in @%s names @%s, which %s' % (d['name'], info[si]['name'] if si is not None else src,
                                    'ends in hlt/ret' if si is not None and not succs(si) else 'does not branch there'))
